@@ -58,14 +58,14 @@ def handle (s : St) (op : String) (args : List Sexp) : Option (St × String) := 
   | "new", [t0, t1, we, hol, adj] =>
       let t0 ← t0.toInt?; let t1 ← t1.toInt?; let we ← intList we; let hol ← intList hol
       if degenerate we then none
-      let c0 : Cal := { t0, t1, weekend := we, hol, adj := .m, month := Civil.month }
+      let c0 : Cal := { t0, t1, weekend := we, hol, adj := .m, month := ymKey }
       let a ← adjOf c0 adj
       let c : Cal := { c0 with adj := a }
       pure ({ s with cur := some c, tbl := c.bdays }, "ok N")
   | "reg", [.atom k, hol, we, t0, t1] =>
       let hol ← optIntList hol; let we ← optIntList we; let t0 ← optInt t0; let t1 ← optInt t1
       if degenerate (we.getD []) then none
-      let (r, c) := s.reg.calendar Civil.month k { hol, weekend := we, t0, t1 }
+      let (r, c) := s.reg.calendar ymKey k { hol, weekend := we, t0, t1 }
       pure ({ cur := some c, tbl := c.bdays, reg := r }, describe c)
   | "ymd", [n] =>
       let n ← n.toInt?
